@@ -901,6 +901,13 @@ def concat_check(sc):
         for m in itertools.islice(find_matches(p, doc), 300):
             for r in itertools.islice(find_matches(q, m), 300):
                 parts.append((r.path_as_str, id(r.data)))
+                if not r.path_as_str.count("<-") and len(parts) <= 40:
+                    # "results obtained from a Match carry absolute locations": the explicit path of a result, followed
+                    # from the document root, leads back to it
+                    back = get_match(r.path, doc, must_match=False)
+                    if back is None or back.data is not r.data:
+                        return (f"the explicit path {r.path} of a result found from the Match {m.path_as_str} does not lead back to it "
+                                f"from the root (result at {r.path_as_str})"), True
     except Exception as e:  # noqa
         pexc = exc_chain(e)
     if wexc or pexc:
